@@ -34,21 +34,25 @@ def c01(c):
     batches of 1..3 spans, several spans per trace spread over batches, maintenance in between"""
     fams = [
         _fam(name='trace-batches', series=[1, 2], times=[1, 2], maxrows=2, maxtotal=4, maxops=4 if c.quick else 6,
-             sims=60 if c.quick else 900, simops=8, index='tree/series', sim=dict(series=[1, 2, 3], times=[1, 2, 3], maxrows=3, maxtotal=9)),
-        _fam(name='trace-batches-cross-service', series=[1, 2], times=[1, 2], maxrows=2, maxtotal=4, maxops=4,
-             sims=40 if c.quick else 500, simops=9, index='tree/time', sim=dict(series=[1, 2, 3], times=[1, 2, 3], maxrows=3, maxtotal=8)),
-        _fam(name='trace-batches-flat-single', series=[1, 2], times=[1, 2], maxrows=2, maxtotal=4, maxops=4,
-             sims=40 if c.quick else 500, simops=9, index='flat/row', sim=dict(times=[1, 2, 3], maxrows=3, maxtotal=8)),
+             sims=16 if c.quick else 160, simops=8, index='tree/series', sim=dict(series=[1, 2, 3], times=[1, 2, 3], maxrows=3, maxtotal=9)),
+        _fam(name='trace-batches-flat-cross-service', series=[1, 2], times=[1, 2], maxrows=2, maxtotal=4, maxops=4,
+             sims=8 if c.quick else 80, simops=9, index='flat/time', sim=dict(series=[1, 2, 3], times=[1, 2, 3], maxrows=3, maxtotal=8)),
         _fam(name='trace-batches-noindex', series=[1, 2], times=[1, 2], maxrows=2, maxtotal=4, maxops=4,
-             sims=30 if c.quick else 400, simops=9, index='none/series', sim=dict(times=[1, 2, 3], maxrows=3, maxtotal=8)),
-        _fam(name='trace-batches-rowpath', series=[1, 2], times=[1, 2], maxrows=2, maxtotal=4, maxops=4,
-             sims=30 if c.quick else 400, simops=9, index='tree/series', flags=ROWPATH, sim=dict(series=[1, 2, 3], times=[1, 2, 3], maxrows=3, maxtotal=8)),
+             sims=6 if c.quick else 60, simops=9, index='none/series', sim=dict(times=[1, 2, 3], maxrows=3, maxtotal=8)),
     ]
     if not c.quick:
-        fams.append(_fam(name='trace-big-spans', series=[1, 2], times=[1, 2], maxrows=2, maxtotal=4, maxops=4,
-                         sims=60, simops=10, big=True, index='tree/series', sim=dict(times=[1, 2, 3], maxrows=3, maxtotal=9)))
-        fams.append(_fam(name='trace-batches-2shards', series=[1, 2], times=[1, 2], maxrows=2, maxtotal=4, maxops=4,
-                         sims=300, simops=9, index='tree/series', shards=2, sim=dict(series=[1, 2, 3], times=[1, 2, 3], maxrows=3, maxtotal=8)))
+        fams += [
+            _fam(name='trace-batches-rowpath', series=[1, 2], times=[1, 2], maxrows=2, maxtotal=4, maxops=4,
+                 sims=60, simops=9, index='tree/series', flags=ROWPATH, sim=dict(series=[1, 2, 3], times=[1, 2, 3], maxrows=3, maxtotal=8)),
+            _fam(name='trace-batches-cross-service', series=[1, 2], times=[1, 2], maxrows=2, maxtotal=4, maxops=4,
+                 sims=80, simops=9, index='tree/time', sim=dict(series=[1, 2, 3], times=[1, 2, 3], maxrows=3, maxtotal=8)),
+            _fam(name='trace-batches-flat-single', series=[1, 2], times=[1, 2], maxrows=2, maxtotal=4, maxops=4,
+                 sims=60, simops=9, index='flat/row', sim=dict(times=[1, 2, 3], maxrows=3, maxtotal=8)),
+            _fam(name='trace-big-spans', series=[1, 2], times=[1, 2], maxrows=2, maxtotal=4, maxops=4,
+                 sims=30, simops=10, big=True, index='tree/series', sim=dict(times=[1, 2, 3], maxrows=3, maxtotal=9)),
+            _fam(name='trace-batches-2shards', series=[1, 2], times=[1, 2], maxrows=2, maxtotal=4, maxops=4,
+                 sims=60, simops=9, index='tree/series', shards=2, sim=dict(series=[1, 2, 3], times=[1, 2, 3], maxrows=3, maxtotal=8)),
+        ]
     return fams
 
 
@@ -67,18 +71,22 @@ def c03(c):
     """flush (one by one, or the flusher's merge of the memory parts) and merge (any subset of the file parts, fan-in
     2..4; core parts and the parts of both secondary indexes in one publication) never change what the covering
     queries return - nor, in the -queries families, what criteria and ordered queries return"""
-    return [
+    fams = [
         _fam(name='trace-merge-queries-tree', series=S, times=T, maxrows=1, maxtotal=3, maxops=3,
-             sims=20 if c.quick else 300, simops=12, queries=c03_queries(), index='tree/series', sim=dict(maxrows=2, maxtotal=8)),
-        _fam(name='trace-merge-queries-flat-time', series=S, times=T, maxrows=1, maxtotal=3, maxops=3,
-             sims=15 if c.quick else 250, simops=12, queries=c03_queries(), index='flat/time', sim=dict(maxrows=2, maxtotal=8)),
+             sims=8 if c.quick else 80, simops=12, queries=c03_queries(), index='tree/series', sim=dict(maxrows=2, maxtotal=8)),
         _fam(name='trace-merge-subsets', series=[1, 2], times=[1, 2], maxrows=1, maxtotal=4, maxops=6 if c.quick else 9,
-             sims=70 if c.quick else 1200, simops=12, index='tree/series'),
+             sims=20 if c.quick else 200, simops=12, index='tree/series'),
         _fam(name='trace-merge-batches', series=[1, 2], times=[1, 2], maxrows=2, maxtotal=4, maxops=4 if c.quick else 7,
-             sims=50 if c.quick else 700, simops=12, index='flat/time', sim=dict(times=[1, 2, 3], maxtotal=6)),
-        _fam(name='trace-merge-queries-rowpath', series=S, times=T, maxrows=1, maxtotal=3, maxops=3,
-             sims=15 if c.quick else 250, simops=12, queries=c03_queries(), index='tree/series', flags=ROWPATH, sim=dict(maxrows=2, maxtotal=8)),
+             sims=12 if c.quick else 120, simops=12, index='flat/time', sim=dict(times=[1, 2, 3], maxtotal=6)),
     ]
+    if not c.quick:
+        fams += [
+            _fam(name='trace-merge-queries-rowpath', series=S, times=T, maxrows=1, maxtotal=3, maxops=3,
+                 sims=50, simops=12, queries=c03_queries(), index='tree/series', flags=ROWPATH, sim=dict(maxrows=2, maxtotal=8)),
+            _fam(name='trace-merge-queries-flat-time', series=S, times=T, maxrows=1, maxtotal=3, maxops=3,
+                 sims=60, simops=12, queries=c03_queries(), index='flat/time', sim=dict(maxrows=2, maxtotal=8)),
+        ]
+    return fams
 
 
 def c08_queries(exclude=()):
@@ -114,17 +122,16 @@ C08_EXCLUDE = {}
 
 
 def c08(c):
-    fams = []
-    for idx, n in (('tree/series', 30), ('flat/series', 25), ('tree/time', 25), ('flat/row', 20), ('none/series', 20)):
-        fams.append(_fam(name='trace-criteria-' + idx.replace('/', '-'), series=S, times=T, maxrows=1, maxtotal=3, maxops=3,
-                         sims=n if c.quick else n * 10, simops=11, queries=c08_queries(C08_EXCLUDE.get(idx, ())), index=idx,
-                         sim=dict(maxrows=3, maxtotal=8)))
-    fams.append(_fam(name='trace-criteria-tree-rowpath', series=S, times=T, maxrows=1, maxtotal=3, maxops=3,
-                     sims=15 if c.quick else 250, simops=11, queries=c08_queries(), index='tree/series', flags=ROWPATH,
-                     sim=dict(maxrows=3, maxtotal=8)))
-    fams.append(_fam(name='trace-criteria-tree-2shards', series=S, times=T, maxrows=1, maxtotal=3, maxops=3,
-                     sims=15 if c.quick else 250, simops=11, queries=c08_queries(), index='tree/series', shards=2,
-                     sim=dict(maxrows=3, maxtotal=8)))
+    """every criteria query in the forms the engine offers (trace_id IN ..., ORDER BY idx-ts, ORDER BY idx-a) under each
+    index configuration; the answers must be the spec's whatever the configuration, the path and the part layout"""
+    def fam(idx, quick, thorough, **kw):
+        name = 'trace-criteria-' + idx.replace('/', '-') + ''.join('-' + k for k in kw.pop('suffix', ()))
+        return _fam(name=name, series=S, times=T, maxrows=1, maxtotal=3, maxops=3, sims=quick if c.quick else thorough, simops=11,
+                    queries=c08_queries(C08_EXCLUDE.get(idx, ())), index=idx, sim=dict(maxrows=3, maxtotal=8), **kw)
+    fams = [fam('tree/series', 8, 50), fam('flat/time', 6, 40), fam('none/series', 4, 30),
+            fam('tree/series', 3, 20, flags=ROWPATH, suffix=('rowpath',))]
+    if not c.quick:
+        fams += [fam('flat/row', 0, 30), fam('flat/series', 0, 30), fam('tree/time', 0, 30), fam('tree/series', 0, 20, shards=2, suffix=('2shards',))]
     return fams
 
 
@@ -145,17 +152,22 @@ def c09_queries():
 def c09(c):
     """ordered by the index rule on the timestamp tag (the spec's time order) and by the rule on tag a, ASC / DESC x
     offset x limit; the window counts traces; traces sharing an order key may come in any order"""
-    return [
+    fams = [
         _fam(name='trace-order-window-single', series=S, times=T, maxrows=1, maxtotal=3, maxops=3,
-             sims=40 if c.quick else 400, simops=12, queries=c09_queries(), index='tree/row', sim=dict(maxrows=3, maxtotal=9)),
-        _fam(name='trace-order-window-flat-single', series=S, times=T, maxrows=1, maxtotal=3, maxops=3,
-             sims=25 if c.quick else 300, simops=12, queries=c09_queries(), index='flat/row', sim=dict(maxrows=3, maxtotal=9)),
+             sims=8 if c.quick else 50, simops=12, queries=c09_queries(), index='tree/row', sim=dict(maxrows=3, maxtotal=9)),
         _fam(name='trace-order-window-series', series=S, times=T, maxrows=1, maxtotal=3, maxops=3,
-             sims=30 if c.quick else 300, simops=12, queries=c09_queries(), index='tree/series', sim=dict(maxrows=3, maxtotal=9)),
-        _fam(name='trace-order-window-cross-service', series=S, times=T, maxrows=1, maxtotal=3, maxops=3,
-             sims=25 if c.quick else 300, simops=12, queries=c09_queries(), index='flat/time', sim=dict(maxrows=3, maxtotal=9)),
+             sims=8 if c.quick else 50, simops=12, queries=c09_queries(), index='tree/series', sim=dict(maxrows=3, maxtotal=9)),
+        _fam(name='trace-order-window-flat-cross-service', series=S, times=T, maxrows=1, maxtotal=3, maxops=3,
+             sims=6 if c.quick else 40, simops=12, queries=c09_queries(), index='flat/time', sim=dict(maxrows=3, maxtotal=9)),
         _fam(name='trace-order-window-rowpath', series=S, times=T, maxrows=1, maxtotal=3, maxops=3,
-             sims=15 if c.quick else 250, simops=12, queries=c09_queries(), index='tree/series', flags=ROWPATH, sim=dict(maxrows=3, maxtotal=9)),
-        _fam(name='trace-order-window-2shards', series=S, times=T, maxrows=1, maxtotal=3, maxops=3,
-             sims=15 if c.quick else 250, simops=12, queries=c09_queries(), index='tree/row', shards=2, sim=dict(maxrows=3, maxtotal=9)),
+             sims=4 if c.quick else 25, simops=12, queries=c09_queries(), index='tree/series', flags=ROWPATH, sim=dict(maxrows=3, maxtotal=9)),
     ]
+    if not c.quick:
+        fams += [
+            _fam(name='trace-order-window-flat-single', series=S, times=T, maxrows=1, maxtotal=3, maxops=3,
+                 sims=30, simops=12, queries=c09_queries(), index='flat/row', sim=dict(maxrows=3, maxtotal=9)),
+            # two shards: the ordered candidates of the secondary indexes of both tables are merged
+            _fam(name='trace-order-window-2shards', series=S, times=T, maxrows=1, maxtotal=3, maxops=3,
+                 sims=25, simops=12, queries=c09_queries(), index='tree/row', shards=2, sim=dict(maxrows=3, maxtotal=9)),
+        ]
+    return fams
